@@ -37,6 +37,7 @@ struct Gen<smooth::SO2<S>>
 {
   using G = smooth::SO2<S>;
   static std::string name() { return "SO2"; }
+  static void rot_slots(std::vector<std::pair<int, int>> & o, int base) { o.push_back({base, 2}); }
   static typename G::Tangent tangent(Rng & r, int as, int kind, int)
   {
     typename G::Tangent a;
@@ -49,6 +50,7 @@ struct Gen<smooth::C1<S>>
 {
   using G = smooth::C1<S>;
   static std::string name() { return "C1"; }
+  static void rot_slots(std::vector<std::pair<int, int>> &, int) {}
   static typename G::Tangent tangent(Rng & r, int as, int kind, int)
   {
     typename G::Tangent a;
@@ -62,6 +64,7 @@ struct Gen<smooth::SO3<S>>
 {
   using G = smooth::SO3<S>;
   static std::string name() { return "SO3"; }
+  static void rot_slots(std::vector<std::pair<int, int>> & o, int base) { o.push_back({base, 3}); }
   static typename G::Tangent tangent(Rng & r, int as, int kind, int)
   {
     return gen_dir3<S>(r) * S(gen_angle(r, as, kind, sw<S>()));
@@ -72,6 +75,7 @@ struct Gen<smooth::SE2<S>>
 {
   using G = smooth::SE2<S>;
   static std::string name() { return "SE2"; }
+  static void rot_slots(std::vector<std::pair<int, int>> & o, int base) { o.push_back({base + 2, 2}); }
   static typename G::Tangent tangent(Rng & r, int as, int kind, int ts)
   {
     typename G::Tangent a;
@@ -86,6 +90,7 @@ struct Gen<smooth::SE3<S>>
 {
   using G = smooth::SE3<S>;
   static std::string name() { return "SE3"; }
+  static void rot_slots(std::vector<std::pair<int, int>> & o, int base) { o.push_back({base + 3, 3}); }
   static typename G::Tangent tangent(Rng & r, int as, int kind, int ts)
   {
     typename G::Tangent a;
@@ -99,6 +104,7 @@ struct Gen<smooth::Galilei<S>>
 {
   using G = smooth::Galilei<S>;
   static std::string name() { return "GAL"; }
+  static void rot_slots(std::vector<std::pair<int, int>> & o, int base) { o.push_back({base + 7, 3}); }
   static typename G::Tangent tangent(Rng & r, int as, int kind, int ts)
   {
     typename G::Tangent a;
@@ -113,6 +119,7 @@ struct Gen<smooth::SE_K_3<S, K>>
 {
   using G = smooth::SE_K_3<S, K>;
   static std::string name() { return "SEK" + std::to_string(K); }
+  static void rot_slots(std::vector<std::pair<int, int>> & o, int base) { o.push_back({base + 3 * K, 3}); }
   static typename G::Tangent tangent(Rng & r, int as, int kind, int ts)
   {
     typename G::Tangent a;
@@ -126,6 +133,7 @@ struct Gen<Eigen::Matrix<S, N, 1>>
 {
   using G = Eigen::Matrix<S, N, 1>;
   static std::string name() { return "T" + std::to_string(N); }
+  static void rot_slots(std::vector<std::pair<int, int>> &, int) {}
   static G tangent(Rng & r, int, int, int ts)
   {
     G a;
@@ -143,6 +151,11 @@ struct Gen<smooth::Bundle<Gs...>>
     bool first    = true;
     ((s += (first ? "" : ",") + Gen<Gs>::name(), first = false), ...);
     return s + "]";
+  }
+  static void rot_slots(std::vector<std::pair<int, int>> & o, int base)
+  {
+    int off = base;
+    ((Gen<Gs>::rot_slots(o, off), off += int(smooth::liebase_info<Gs>::Impl::RepSize)), ...);
   }
   static typename G::Tangent tangent(Rng & r, int as, int kind, int ts)
   {
@@ -361,6 +374,22 @@ struct Emit
     G g = G::exp(tan(i, 0));
     if (i % 7 == 3) g = g * G::exp(tan(i + 1, 0));
     if (i % 11 == 5) g = g.inverse();
+    if (i % 13 == 7) {
+      // exact half-turn in every rotation factor: quaternion (axis,0) with w exactly 0 / complex (0,-1)
+      std::vector<std::pair<int, int>> slots;
+      Gen<G>::rot_slots(slots, 0);
+      auto c = g.coeffs();
+      for (auto [off, kind] : slots) {
+        if (kind == 2) {
+          c(off) = S(0); c(off + 1) = S(-1);
+        } else {
+          const int ax = r.below(3);
+          for (int k = 0; k < 4; ++k) c(off + k) = S(0);
+          c(off + ax) = S(r.sign());
+        }
+      }
+      g.coeffs() = c;
+    }
     return g;
   }
 
